@@ -266,8 +266,8 @@ pub fn parse<'input>(
     }
 
     s.skip_spaces();
-    if s.curr_byte().ok() == Some(b'<') {
-        parse_element(s, events)?;
+    if s.curr_byte().ok() == Some(b'<') && parse_element(s, events)? {
+        parse_content(s, events)?;
     }
 
     parse_misc(s, events)?;
@@ -568,7 +568,10 @@ fn consume_decl(s: &mut Stream) -> Result<()> {
 
 // element ::= EmptyElemTag | STag content ETag
 // '<' Name (S Attribute)* S? '>'
-fn parse_element<'input>(s: &mut Stream<'input>, events: &mut impl XmlEvents<'input>) -> Result<()> {
+//
+// Parses a start tag only. Returns `true` when the element is open
+// and its content should be parsed by the caller.
+fn parse_element<'input>(s: &mut Stream<'input>, events: &mut impl XmlEvents<'input>) -> Result<bool> {
     let start = s.pos();
     s.advance(1); // <
     let (prefix, local) = s.consume_qname()?;
@@ -622,11 +625,7 @@ fn parse_element<'input>(s: &mut Stream<'input>, events: &mut impl XmlEvents<'in
         }
     }
 
-    if open {
-        parse_content(s, events)?;
-    }
-
-    Ok(())
+    Ok(open)
 }
 
 // Attribute ::= Name Eq AttValue
@@ -650,6 +649,10 @@ pub fn parse_content<'input>(
     s: &mut Stream<'input>,
     events: &mut impl XmlEvents<'input>,
 ) -> Result<()> {
+    // Number of elements opened by this call and not closed yet.
+    // Nested elements are handled by this loop and not via recursion
+    // to keep the stack usage independent of the document depth.
+    let mut depth = 0usize;
     while !s.at_end() {
         match s.curr_byte() {
             Ok(b'<') => match s.next_byte() {
@@ -665,9 +668,16 @@ pub fn parse_content<'input>(
                 Ok(b'?') => parse_pi(s, events)?,
                 Ok(b'/') => {
                     parse_close_element(s, events)?;
-                    break;
+                    if depth == 0 {
+                        break;
+                    }
+                    depth -= 1;
                 }
-                Ok(_) => parse_element(s, events)?,
+                Ok(_) => {
+                    if parse_element(s, events)? {
+                        depth += 1;
+                    }
+                }
                 Err(_) => return Err(Error::UnknownToken(s.gen_text_pos())),
             },
             Ok(_) => parse_text(s, events)?,
